@@ -92,8 +92,8 @@ class EventLog:
     def __init__(self):
         self.events = []
 
-    def add(self, kind, **data):
-        ev = {"seq": len(self.events), "kind": kind}
+    def add(self, kind_, **data):
+        ev = {"seq": len(self.events), "kind": kind_}
         ev.update(data)
         self.events.append(ev)
 
@@ -173,6 +173,12 @@ class Crash:
 
 
 # ----------------------------------------------------------------------------- log capture
+def silence_logging():
+    """flodym logs through the root logger; keep its text away from our stdout/stderr"""
+    root = logging.getLogger()
+    root.handlers = [logging.NullHandler()]
+
+
 class LogCapture(logging.Handler):
     """Captures records that reach the root logger while active."""
 
@@ -212,12 +218,18 @@ def dims_sig(ds):
 
 def snap_array(a):
     v = a.values
+    if isinstance(v, np.generic):  # numpy scalar left behind by a ufunc on a 0-d array
+        v = np.asarray(v)
     if isinstance(v, np.ndarray):
         return (dims_sig(a.dims), v.copy(), str(v.dtype), v.shape)
     return (dims_sig(a.dims), v, type(v).__name__, None)
 
 
 def values_equal(x, y):
+    if isinstance(x, np.generic):
+        x = np.asarray(x)
+    if isinstance(y, np.generic):
+        y = np.asarray(y)
     if isinstance(x, np.ndarray) and isinstance(y, np.ndarray):
         if x.shape != y.shape or x.dtype != y.dtype:
             return False
@@ -238,7 +250,7 @@ def same_as_snap(snap, a):
 
 def shape_invariant_ok(a):
     v = a.values
-    if not isinstance(v, np.ndarray):
+    if not isinstance(v, (np.ndarray, np.generic)):  # a numpy scalar has shape () and is accepted for 0-d
         return False
     letters = a.dims.letters
     if len(set(letters)) != len(letters):
